@@ -1,5 +1,5 @@
 (* C17 - Unknown input is ignored and the process lifecycle is clean (state-machine part). *)
-From Walleye Require Import Model.Uci Proofs.SessionProofs.
+From Walleye Require Import Model.Uci Proofs.SessionProofs Proofs.CleanInput.
 Open Scope Z_scope.
 
 Theorem C17_unknown_ignored : forall zt osort st raw sc,
@@ -26,7 +26,28 @@ Theorem C17_exited_is_final : forall zt osort st i sc,
   ss_phase st <> Running -> step zt osort st i sc = (st, []).
 Proof. exact exited_is_final. Qed.
 
+(* surplus or odd white space: every line reads as leading blanks followed by words, each followed by blanks (any of
+   the Unicode white-space characters, in any number), and what the dispatcher works on is exactly the list of words *)
+Theorem C17_line_is_its_words : forall s,
+  exists b0 l, all_ws b0 /\ well_formed l /\ s = assemble b0 l /\
+               split_on 32 (clean_input s) = match l with [] => [[]] | _ => map fst l end.
+Proof. exact line_is_its_words. Qed.
+
+(* so two lines with the same words are the same command: the blanks never matter, whatever the state and schedule *)
+Theorem C17_blanks_do_not_matter : forall zt osort st sc b0 l b0' l',
+  all_ws b0 -> well_formed l -> all_ws b0' -> well_formed l' -> map fst l = map fst l' ->
+  step zt osort st (Line (assemble b0 l)) sc = step zt osort st (Line (assemble b0' l')) sc.
+Proof.
+  intros zt osort st sc b0 l b0' l' H1 W1 H2 W2 E.
+  assert (S : split_on 32 (clean_input (assemble b0 l)) = split_on 32 (clean_input (assemble b0' l'))).
+  { rewrite (clean_input_words b0 l H1 W1), (clean_input_words b0' l' H2 W2), E.
+    destruct l, l'; try reflexivity; discriminate. }
+  unfold step. cbv zeta. rewrite S. reflexivity.
+Qed.
+
 Print Assumptions C17_unknown_ignored.
+Print Assumptions C17_line_is_its_words.
+Print Assumptions C17_blanks_do_not_matter.
 Print Assumptions C17_isready.
 Print Assumptions C17_eof_exits.
 Print Assumptions C17_quit_exits.
